@@ -83,6 +83,34 @@ def param_keys(b):
     return out
 
 
+# Optional callee summaries for tuple-returning helpers: when FIELD_SUMMARY["F"] is set (a Facts object), a field read out of the
+# result of a crate function only depends on the arguments that field of the callee's return value depends on
+# (`let (a, b) = lock_both(x, y)`: a depends on x only).
+FIELD_SUMMARY = {"F": None, "memo": {}}
+
+
+def _field_args(callee, fld):
+    F = FIELD_SUMMARY["F"]
+    if F is None or not callee:
+        return None
+    key = (id(F), callee, fld)
+    memo = FIELD_SUMMARY["memo"]
+    if key in memo:
+        return memo[key]
+    memo[key] = None  # recursion guard: fall back to 'all arguments'
+    cb = F.body(callee) if F.has(callee) else None
+    if cb is None or not cb.mir:
+        return None
+    ds = deps(cb, mir.Defs(cb), 0, proj=[["f", fld]])
+    pos = set()
+    for x in ds:
+        h = x.split(".")[0]
+        if h.startswith("arg") and h[3:].isdigit():
+            pos.add(int(h[3:]))
+    memo[key] = sorted(pos)
+    return memo[key]
+
+
 def deps(b, defs, local, depth=0, seen=None, proj=None):
     """Set of origin roots ('argN...') a local depends on through calls and assignments. `proj` is the projection with which
     the local is read: a field read out of a tuple built in place only depends on that component."""
@@ -102,6 +130,10 @@ def deps(b, defs, local, depth=0, seen=None, proj=None):
         ops = []
         if d[2] == "call":
             ops = s["args"]
+            if fld is not None and len(s["dest"]) == 1:
+                pos = _field_args(mir.callee(s), fld)
+                if pos is not None:
+                    ops = [s["args"][i - 1] for i in pos if i - 1 < len(s["args"])]
         elif d[2] == "assign":
             rv = s["rv"]
             if rv["k"] == "agg" and rv.get("ak") == "tuple" and fld is not None and fld < len(rv.get("ops", [])) and len(s["p"]) == 1:
